@@ -20,21 +20,32 @@ i.e. exactly the calls whose allele representation fits the 29 bits of the packe
      function (exact JVM double semantics in scvc) are evaluated at the first and last index of every row k (all k <= 32767 in the
      thorough tier, a stride in the quick tier); completeness for every index rests on the monotonicity of IEEE-754 operations.
  (N) hl.Call.__init__ orders the alleles of an unphased diploid call (precondition of (E)).
+ (Q) wave 4: the decoded call EQUALS the packed call under the real Call.__eq__, both built by the real Call.__init__ (the packed one
+     from a list); the KIND of the stored sequence counts (a list never equals a tuple) and _should_freeze is a free Boolean, so
+     the positions decoded as set elements / dict keys are covered.
+ (S) wave 4: the codec is a function of the 32 bits alone - AST obligation over the two _tcall methods and every module-level
+     function they reach: nothing written outlives the invocation, no memoising decorator, no mutable default, every module-level
+     value read is bound once and never written.
+ (T) wave 4: the staged twin of the engine's decoder, SCanonicalCallValue.forEachAllele / ploidy / isPhased (SCanonicalCall.scala),
+     parsed from the real text and executed by vc/scstaged.py on the engine's own packed values (BOUNDED like (G)): same alleles,
+     ploidy, phasing, no wrapping Int operation; AST: Int -> Double conversions apply to the allele representation itself.
 """
 from __future__ import annotations
 
 import ast as pyast
 import os
+import re
 
 import z3
 
-from vc import core, pyvc, scvc
+from vc import core, pyvc, scstaged, scvc
 from vc.pyclass import ClassIndex, Inliner
 from vc.pyvc import Contract, Fork, SExc, SRecord, to_z3
 
 TYPES = 'hail/python/hail/expr/types.py'
 CALLPY = 'hail/python/hail/genetics/call.py'
 SCALA = ['hail/hail/src/is/hail/variant/Call.scala', 'hail/hail/src/is/hail/variant/Genotype.scala']
+SCALL = 'hail/hail/src/is/hail/types/physical/stypes/concrete/SCanonicalCall.scala'
 MAXK = 32767
 
 
@@ -141,13 +152,101 @@ def decode_contract(ploidy, r32, cap, table, ctx=None, dom=(), hint=None):
         cap.append((list(st.pc), args[0], args[1] if len(args) > 1 else kw.get('phased', False)))
         return SRecord('Call', {})
 
+    def as_tuple(eng, st, args, kw, node):
+        # tuple(xs): the KIND of the sequence matters to Call.__eq__ ([1, 2] != (1, 2)); a list of known length becomes a Python
+        # tuple of its elements (pyvc's own `tuple(...)` keeps the list value)
+        v = args[0] if len(args) == 1 and not kw else None
+        if isinstance(v, tuple):
+            return v
+        if isinstance(v, pyvc.SList):
+            n = z3.simplify(v.len)
+            if z3.is_int_value(n):
+                return tuple(z3.Select(v.arr, i_) for i_ in range(n.as_long()))
+        raise pyvc.Undecided('tuple(...) of a sequence of unknown length in the call decoder')
+
     return Contract(
         path=TYPES, qualname='_tcall._convert_from_encoding', label='_tcall._convert_from_encoding[ploidy=%d]' % ploidy,
         types={}, bv_checked=True, setup=setup,
         consts={'small_allele_pair': tuple(table)},
-        calls={'byte_reader.read_int32': read, 'genetics.Call': ctor, 'allele_pair': _inline_allele_pair(ctx), 'allele_pair_sqrt': _sqrt_model(hint)},
+        calls={'byte_reader.read_int32': read, 'genetics.Call': ctor, 'allele_pair': _inline_allele_pair(ctx), 'allele_pair_sqrt': _sqrt_model(hint), 'tuple': as_tuple},
         raises={'*': True},
     )
+
+
+class _KindEngine(pyvc.Engine):
+    """pyvc engine for hl.Call's own methods: `==` between sequences is Python's - a list never equals a tuple, two sequences of
+    the same kind are equal when they have the same length and equal elements (lengths are known here)"""
+
+    def equal(self, a, b):
+        def elems(v):
+            if isinstance(v, tuple):
+                return 'tuple', list(v)
+            if isinstance(v, pyvc.SList):
+                n = z3.simplify(v.len)
+                if z3.is_int_value(n):
+                    return 'list', [z3.Select(v.arr, i_) for i_ in range(n.as_long())]
+                raise pyvc.Undecided('equality of sequences of unknown length')
+            return None, None
+
+        (ka, xa), (kb, xb) = elems(a), elems(b)
+        if ka is not None and kb is not None:
+            if ka != kb or len(xa) != len(xb):
+                return z3.BoolVal(False)
+            return z3.And(*[pyvc.Engine.equal(self, x, y) for x, y in zip(xa, xb)]) if xa else z3.BoolVal(True)
+        return pyvc.Engine.equal(self, a, b)
+
+
+def _call_inliner(ctx):
+    """the real hl.Call (hail/python/hail/genetics/call.py): __init__ and __eq__ executed on the caller's values"""
+    if 'call' not in _INL:
+        inl = Inliner(ctx, ClassIndex([CALLPY]), calls={'isinstance': lambda eng, st, args, kw, node: True})
+        inl.engine_cls = _KindEngine
+        _INL['call'] = inl
+    return _INL['call']
+
+
+def _list_value(vals):
+    if not vals:
+        return pyvc.SList(z3.IntVal(0), None, None)
+    arr = z3.Const(pyvc.fresh_name('packed_alleles'), z3.ArraySort(z3.IntSort(), z3.BitVecSort(64)))
+    for i_, v in enumerate(vals):
+        arr = z3.Store(arr, i_, v)
+    return pyvc.SList(z3.IntVal(len(vals)), arr, 'bv64')
+
+
+def equal_calls_goal(ctx, ploidy, a0, a1, phased, dcap, hyps):
+    """the decoded call EQUALS the packed one under the real Call.__eq__, both built by the real Call.__init__: the packed call
+    from a list of its alleles (the documented parameter type), the decoded one from whatever the decoder hands to the
+    constructor on each of its paths (frozen positions - set elements, dict keys - included: _should_freeze is a free Boolean).
+    -> (goal, number of constructor paths, number of __eq__ evaluations, disjunction of the path conditions)"""
+    inl = _call_inliner(ctx)
+    # the bodies are run without path condition (their branches depend on `phased` and on known lengths only); every outcome is
+    # guarded by its own path condition below, so an infeasible combination is a true conjunct
+    packed = [(k_, rec, list(s.pc)) for k_, rec, s in inl.run_ctor('Call', args=[_list_value([bv64(a0), bv64(a1)][:ploidy]), phased], label='Call.__init__[packed ploidy=%d]' % ploidy)]
+    goals, feasible, n_eq = [], [], 0
+    for pi, (pc_, alleles, ph) in enumerate(dcap):
+        for kd, drec, ds in inl.run_ctor('Call', args=[alleles, ph], label='Call.__init__[decoded ploidy=%d path %d]' % (ploidy, pi)):
+            dpc = list(pc_) + list(ds.pc)
+            if kd != 'value':
+                goals.append(z3.Not(z3.And(*dpc)) if dpc else z3.BoolVal(False))
+                continue
+            for kp, prec, ppc in packed:
+                if kp != 'value':
+                    goals.append(z3.Not(z3.And(*ppc)) if ppc else z3.BoolVal(False))
+                    continue
+                if z3.is_false(z3.simplify(z3.And(*(dpc + ppc)))):
+                    continue  # e.g. decoded as phased, packed as unphased
+                for ke, res, es in inl.run_method(drec, '__eq__', args=[prec], label='Call.__eq__[ploidy=%d path %d]' % (ploidy, pi)):
+                    n_eq += 1
+                    guard = z3.And(*(dpc + ppc + list(es.pc))) if dpc + ppc + list(es.pc) else z3.BoolVal(True)
+                    feasible.append(guard)
+                    if ke == 'value' and isinstance(res, bool):
+                        res = z3.BoolVal(res)
+                    if ke != 'value' or not (isinstance(res, z3.ExprRef) and z3.is_bool(res)):
+                        goals.append(z3.Not(guard))  # raises / NotImplemented / not a Boolean
+                    else:
+                        goals.append(z3.Implies(guard, res))
+    return (z3.And(*goals) if goals else z3.BoolVal(False)), len(dcap), n_eq, (z3.Or(*feasible) if feasible else z3.BoolVal(False))
 
 
 def _domain(ploidy, a0, a1, phased):
@@ -222,6 +321,12 @@ def encode_decode(ctx, objs):
             goals.append(z3.Implies(cond, z3.And(*eq)))
         ctx.add(core.decided('C34/decode/ploidy=%d/decoder-reaches-the-Call-constructor' % ploidy, bool(dcap), '%d paths' % len(dcap), kind='vacuity'))
         ctx.add(core.valid('C34/decode/ploidy=%d/round-trip-same-alleles-and-phasing' % ploidy, dom, z3.And(*goals) if goals else z3.BoolVal(False), cvc5_first=(ploidy == 2)))
+        # the same round trip stated with the real hl.Call: decoded == packed under Call.__eq__ (element-wise agreement, just
+        # proved, is a hypothesis here: what is added is the constructor's normalisation and the KIND of the stored sequence)
+        eq_goal, n_paths, n_eq, eq_feasible = equal_calls_goal(ctx, ploidy, a0, a1, phased, dcap, dom + list(goals))
+        ctx.add(core.decided('C34/decode/ploidy=%d/Call.__eq__-evaluated-on-every-constructor-path' % ploidy, n_paths >= 1 and n_eq >= n_paths, '%d constructor paths, %d evaluations of Call.__eq__' % (n_paths, n_eq), kind='vacuity'))
+        ctx.add(core.satisfiable('C34/decode/ploidy=%d/vacuity/some-equality-path-is-feasible' % ploidy, dom + [eq_feasible]))
+        ctx.add(core.valid('C34/decode/ploidy=%d/decoded-call-equals-the-packed-call-under-the-real-Call.__eq__ (frozen positions included)' % ploidy, dom + list(goals), eq_goal))
         # ---- the engine reads the same fields back
         cobj = objs['Call']
         ctx.add(core.valid('C34/decode/ploidy=%d/engine-reads-back-ploidy-phasing-representation' % ploidy, dom, z3.And(cobj.funcs['ploidy'].sym(r).value == ploidy, cobj.funcs['isPhased'].sym(r).value == phased, cobj.funcs['alleleRepr'].sym(r).value == rep)))
@@ -237,6 +342,7 @@ def encode_decode(ctx, objs):
             ctx.add(core.valid('C34/decode/ploidy=2/engine-allele-pair-is-the-original-pair', hyp, z3.And(z3.Not(ap.throws), AP['j'].sym(ap.value).value == a0, AP['k'].sym(ap.value).value == a1)))
     ctx.under_contract(SCALA[0], 'Call.ploidy / isPhased / alleleRepr / allelePairUnchecked')
     ctx.under_contract(TYPES, 'small_allele_pair')
+    ctx.under_contract(CALLPY, 'Call.__eq__')
 
 
 # ---- (G) genotype index <-> allele pair ------------------------------------------------------------------------------------
@@ -250,6 +356,21 @@ def _py_functions():
     body = [n for n in tree.body if (isinstance(n, pyast.FunctionDef) and n.name in ('allele_pair', 'allele_pair_sqrt')) or (isinstance(n, pyast.Assign) and isinstance(n.targets[0], pyast.Name) and n.targets[0].id == 'small_allele_pair')]
     ns = {'math': math}
     exec(compile(pyast.Module(body=body, type_ignores=[]), 'types-extract', 'exec'), ns)
+    # every other module-level value the codec functions read (none today): bound as the module binds it
+    codec = [n for n in tree.body if isinstance(n, pyast.FunctionDef) and n.name in ('allele_pair', 'allele_pair_sqrt')]
+    for c_ in tree.body:
+        if isinstance(c_, pyast.ClassDef) and c_.name == '_tcall':
+            codec += [n for n in c_.body if isinstance(n, pyast.FunctionDef) and n.name in ('_convert_to_encoding', '_convert_from_encoding')]
+    read = {n.id for f in codec for n in pyast.walk(f) if isinstance(n, pyast.Name) and isinstance(n.ctx, pyast.Load)}
+    for n in tree.body:
+        tg = n.targets[0] if isinstance(n, pyast.Assign) and len(n.targets) == 1 else (n.target if isinstance(n, pyast.AnnAssign) and n.value is not None else None)
+        if isinstance(tg, pyast.Name) and tg.id in read and tg.id not in ns:
+            if isinstance(n, pyast.AnnAssign):
+                n = pyast.copy_location(pyast.Assign(targets=[tg], value=n.value), n)
+            try:
+                exec(compile(pyast.fix_missing_locations(pyast.Module(body=[n], type_ignores=[])), 'types-extract', 'exec'), ns)
+            except Exception:  # pylint: disable=broad-except
+                pass  # not evaluable in isolation: a NameError in the codec then counts as a harness error, not as a witness
     return ns
 
 
@@ -267,10 +388,17 @@ def _py_codec():
             a.annotation = None
     ns = dict(_py_functions())
 
-    class Call:
-        def __init__(self, alleles, phased=False):
-            self.alleles, self.phased, self.ploidy = list(alleles), phased, len(alleles)
+    # the real hl.Call: __init__, __eq__, __hash__, __repr__ and the three properties, taken from call.py
+    ctree = pyast.parse(core.read_repo(CALLPY))
+    ccls = [n for n in ctree.body if isinstance(n, pyast.ClassDef) and n.name == 'Call'][0]
+    keep = [n for n in ccls.body if isinstance(n, pyast.FunctionDef) and n.name in ('__init__', '__eq__', '__hash__', '__repr__', 'alleles', 'ploidy', 'phased') and all(isinstance(d, pyast.Name) and d.id == 'property' for d in n.decorator_list)]
+    for f in keep:
+        f.returns = None
+    from collections.abc import Sequence
 
+    cns = {'Sequence': Sequence}
+    exec(compile(pyast.fix_missing_locations(pyast.Module(body=[pyast.ClassDef(name='Call', bases=[], keywords=[], body=keep, decorator_list=[])], type_ignores=[])), 'call-extract', 'exec'), cns)
+    Call = cns['Call']
     ns['genetics'] = type('G', (), {'Call': Call})
     exec(compile(pyast.Module(body=fns, type_ignores=[]), 'tcall-extract', 'exec'), ns)
 
@@ -290,10 +418,15 @@ def _py_codec():
         ns['_convert_to_encoding'](None, w, Call(alleles, phased))
         return w.v
 
-    def dec(v):
-        c = ns['_convert_from_encoding'](None, R(v))
-        return list(c.alleles), c.phased
+    freezable = '_should_freeze' in [a.arg for f in fns if f.name == '_convert_from_encoding' for a in f.args.args + f.args.kwonlyargs]
 
+    def dec(v, freeze=False):
+        """-> the decoded hl.Call (decoded as a set element / dict key when freeze)"""
+        if freeze and freezable:
+            return ns['_convert_from_encoding'](None, R(v), _should_freeze=True)
+        return ns['_convert_from_encoding'](None, R(v))
+
+    dec.Call = Call
     return enc, dec
 
 
@@ -315,10 +448,11 @@ def concrete_search(objs):
     cases = [((), False), ((), True)] + [((a,), ph) for a in (0, 1, 5, 65535, 65536, (1 << 28) - 1, 1 << 28, (1 << 29) - 1) for ph in (False, True)]
     for k in ks:
         for j in sorted({0, 1, k // 2, max(k - 1, 0), k}):
-            if tri(k) + j < (1 << 29):
+            if j <= k and tri(k) + j < (1 << 29):
                 cases.append(((j, k), False))
                 cases.append(((j, k - j), True))
-    for alleles, ph in cases:
+    scls = _staged_class()
+    for second_pass, (alleles, ph) in [(False, c_) for c_ in cases] + [(True, c_) for c_ in reversed(cases)]:
         want_rep = 0 if not alleles else (alleles[0] if len(alleles) == 1 else (tri(alleles[1]) + alleles[0] if not ph else tri(alleles[0] + alleles[1]) + alleles[0]))
         want = _i32(int(ph) | (len(alleles) << 1) | (want_rep << 3))
         rec = {'alleles': list(alleles), 'phased': ph, 'specified_int32': want}
@@ -332,12 +466,16 @@ def concrete_search(objs):
             return dict(rec, confirmed=True, what='engine rejects a call in range: %s' % e)
         if got_py != sc or sc != want:
             return dict(rec, confirmed=True, what='front end and engine pack the call differently (or not as specified)', front_end_int32=got_py, engine_int32=sc)
-        try:
-            back = dec(sc)
-        except Exception as e:  # pylint: disable=broad-except
-            return dict(rec, confirmed=True, what='front end cannot decode the engine call: %r' % e, engine_int32=sc)
-        if back != (list(alleles), ph):
-            return dict(rec, confirmed=True, what='decode(encode(call)) is a different call', decoded={'alleles': back[0], 'phased': back[1]})
+        packed = dec.Call(list(alleles), ph)
+        for freeze in (False, True):
+            try:
+                back = dec(sc, freeze)
+            except NameError:
+                raise  # the extraction misses a module-level name: harness error, not a witness
+            except Exception as e:  # pylint: disable=broad-except
+                return dict(rec, confirmed=True, what='front end cannot decode the engine call: %r' % e, engine_int32=sc, decoded_as_set_element_or_dict_key=freeze)
+            if not (back == packed and packed == back and hash(back) == hash(packed)):
+                return dict(rec, confirmed=True, what='the decoded call does not equal the packed call (hl.Call.__eq__)' + (' - decoding depends on what was decoded before in the same process' if second_pass else ''), decoded=repr(back), packed=repr(packed), decoded_as_set_element_or_dict_key=freeze, engine_int32=sc)
         C = S['Call']
         fields = (C['ploidy'].eval(sc), C['isPhased'].eval(sc), C['alleleRepr'].eval(sc))
         if fields != (len(alleles), ph, want_rep):
@@ -346,7 +484,17 @@ def concrete_search(objs):
             p = C['allelePairUnchecked'].eval(sc)
             if (S['AllelePair']['j'].eval(p), S['AllelePair']['k'].eval(p)) != tuple(alleles):
                 return dict(rec, confirmed=True, what='engine unpacks a different allele pair', engine_pair=[S['AllelePair']['j'].eval(p), S['AllelePair']['k'].eval(p)])
+        if not second_pass:
+            bad = _staged_mismatch(scls, objs, alleles, ph, sc)
+            if bad is not None:
+                return bad
     return {'confirmed': False}
+
+
+def native_witness(ctx):
+    """used by vc.check when the contracts no longer fit a changed source: a failing input replayed on the real code"""
+    objs = scvc.load_objects([os.path.join(core.REPO, p) for p in SCALA])
+    return concrete_search(objs)
 
 
 def pairs(ctx, objs, tier):
@@ -414,6 +562,242 @@ def pairs(ctx, objs, tier):
     ctx.under_contract(SCALA[1], 'Genotype.allelePairSqrt (bounded)')
 
 
+# ---- (T) the staged twin of the engine's decoder ----------------------------------------------------------------------------------
+
+
+def _staged_class():
+    try:
+        return scstaged.load_staged_class(core.read_repo(SCALL), SCALL, 'SCanonicalCallValue')
+    except scvc.ScUnsupported as e:
+        raise pyvc.Undecided('staged call value: %s' % e)
+
+
+def _staged_mismatch(cls, objs, alleles, phased, c):
+    """SCanonicalCallValue(c).forEachAllele / ploidy / isPhased (real staged text, vc/scstaged.py) against the call that the
+    engine packed into c; None when they agree"""
+    rec = {'alleles': list(alleles), 'phased': phased, 'engine_int32': c}
+    run = scstaged.StagedRun(cls, objs, {'call': c})
+    out = []
+    try:
+        run.call('forEachAllele', {'alleleCode': out.append})
+        pl, ph = run.call('ploidy'), run.call('isPhased')
+    except scvc.ScThrow as e:
+        return dict(rec, confirmed=True, what='staged forEachAllele / ploidy / isPhased (generated code) throws on a call in range: %s' % e)
+    if out != list(alleles):
+        return dict(rec, confirmed=True, what='staged forEachAllele (generated code) yields other alleles than the call holds', staged_alleles=out, int_arithmetic_wrapped=run.overflows[:2])
+    if (pl, ph) != (len(alleles), phased):
+        return dict(rec, confirmed=True, what='staged ploidy / isPhased (generated code) read other fields than the call holds', staged_ploidy_phased=[pl, ph])
+    if run.overflows:
+        return dict(rec, confirmed=True, what='32-bit Int arithmetic of the staged decoder wraps around on a call in range', int_arithmetic_wrapped=run.overflows[:2], staged_alleles=out)
+    return None
+
+
+def staged_twin(ctx, objs, tier):
+    """SCanonicalCallValue.forEachAllele is the decoder the generated code runs (the interpreter's is Call.allelePairUnchecked,
+    verified above).  (a) AST: every Int -> Double conversion in it applies to a value (the allele representation), never to
+    the result of 32-bit arithmetic, and the narrowing back (.toI) is applied to Double arithmetic - `8 * i + 1` is computed in
+    doubles as in the verified Genotype.allelePairSqrt; (b) BOUNDED: the real staged text is executed (vc/scstaged.py, exact JVM
+    semantics) on the engine's own Call0/1/2.apply values at the first and last index of the rows, both phasings, and must
+    yield exactly the alleles, ploidy and phasing of the call, without any wrapping Int operation."""
+    cls = _staged_class()
+    try:
+        nodes = cls.walk('forEachAllele')
+        for m in ('ploidy', 'isPhased'):
+            cls.walk(m)
+    except scvc.ScUnsupported as e:
+        raise pyvc.Undecided('staged call value: %s' % e)
+    ctx.under_contract(SCALL, 'SCanonicalCallValue.forEachAllele / ploidy / isPhased (staged; bounded)')
+    conv = [n for n in nodes if n.kind == 'Select' and n.name in ('toD', 'toDouble')]
+    bad = ['line %d: .%s of a %s expression' % (n.line, n.name, n.obj.kind) for n in conv if n.obj.kind != 'Ident']
+    sq = [n for n in nodes if n.kind == 'Apply' and any(a.kind == 'Lit' and a.ty == 'String' and a.value.strip('"') == 'sqrt' for _, a in n.args)]
+    ctx.add(core.decided('C34/staged/forEachAllele/int-to-double-conversion-applies-to-the-allele-representation-itself (double arithmetic before any narrowing)', not bad, '; '.join(bad) or '%d conversion(s), receivers: %s' % (len(conv), ', '.join(sorted({n.obj.name for n in conv}))), kind='scan'))
+    ctx.add(core.decided('C34/staged/forEachAllele/closed-form-found (sqrt call and Int->Double conversion present)', bool(conv) and bool(sq), 'toD at lines %s, sqrt at lines %s' % ([n.line for n in conv], [n.line for n in sq]), kind='vacuity'))
+    # (b) bounded execution
+    S = {o: objs[o].funcs for o in ('Call0', 'Call1', 'Call2')}
+    ncached = objs['Genotype'].get_val('nCachedAllelePairs')
+    ks = list(range(0, MAXK + 1)) if tier == 'thorough' else sorted(set(list(range(0, 600)) + list(range(600, MAXK + 1, 97)) + [23169, 23170, 23171, 32766, 32767]))
+    cases = [((), False), ((), True)] + [((a,), ph) for a in (0, 1, 7, 65535, 65536, (1 << 28) - 1, 1 << 28, (1 << 29) - 1) for ph in (False, True)]
+    for k_ in ks:
+        for j_ in (0, k_):
+            if tri(k_) + j_ < (1 << 29):
+                cases.append(((j_, k_), False))
+                cases.append(((j_, k_ - j_), True))
+    last = pair_of_index((1 << 29) - 1)
+    cases += [(last, False), ((last[0], last[1] - last[0]), True)]
+    worst, n_closed = None, 0
+    try:
+        for alleles, ph in cases:
+            c = {0: lambda: S['Call0']['apply'].eval(ph), 1: lambda: S['Call1']['apply'].eval(alleles[0], ph), 2: lambda: S['Call2']['apply'].eval(alleles[0], alleles[1], ph)}[len(alleles)]()
+            if len(alleles) == 2 and ((c & 0xFFFFFFFF) >> 3) >= ncached:
+                n_closed += 1
+            worst = _staged_mismatch(cls, objs, alleles, ph, c)
+            if worst is not None:
+                break
+    except scvc.ScUnsupported as e:
+        raise pyvc.Undecided('staged call value: %s' % e)
+    except scvc.ScThrow as e:
+        raise core.CheckerBug('engine rejects a call in range while checking the staged twin: %s' % e)
+    ctx.add(core.decided('C34/staged/forEachAllele/bounded-run-reaches-the-closed-form-branch', worst is not None or n_closed > 100, '%d of %d calls beyond the %d cached pairs' % (n_closed, len(cases), ncached), kind='vacuity'))
+    ctx.bounded_standin(
+        'staged-forEachAllele-yields-the-alleles-of-the-engine-call',
+        'SCanonicalCallValue.forEachAllele / ploidy / isPhased (real staged Scala text, vc/scstaged.py) on Call0/1/2.apply of the first and last index of %d of the %d rows k <= 32767 (%s tier), both phasings, haploid and empty calls, and index 2^29 - 1; no Int operation may wrap' % (len(ks), MAXK + 1, tier),
+        len(cases), worst is None, worst or '',
+    )
+
+
+# ---- (S) the codec is a function of the 32 bits alone: no process-wide state -------------------------------------------------
+
+MUTATORS = frozenset('append extend insert add update setdefault pop popitem clear remove discard sort reverse appendleft popleft extendleft __setitem__ __delitem__ __setattr__ cache_clear'.split())
+CODEC_ROOTS = ('_tcall._convert_from_encoding', '_tcall._convert_to_encoding')
+
+
+def _root_name(n):
+    while isinstance(n, (pyast.Subscript, pyast.Attribute, pyast.Starred)):
+        n = n.value
+    return n.id if isinstance(n, pyast.Name) else None
+
+
+def _bound_names(fn):
+    """names local to one invocation of fn (its nested defs included): parameters and everything bound by a statement"""
+    out, glob = set(), set()
+    for n in pyast.walk(fn):
+        if isinstance(n, (pyast.FunctionDef, pyast.AsyncFunctionDef, pyast.Lambda)):
+            a = n.args
+            out.update(x.arg for x in a.posonlyargs + a.args + a.kwonlyargs + ([a.vararg] if a.vararg else []) + ([a.kwarg] if a.kwarg else []))
+            if not isinstance(n, pyast.Lambda) and n is not fn:
+                out.add(n.name)
+        elif isinstance(n, pyast.Name) and isinstance(n.ctx, (pyast.Store, pyast.Del)):
+            out.add(n.id)
+        elif isinstance(n, pyast.ClassDef):
+            out.add(n.name)
+        elif isinstance(n, pyast.alias):
+            out.add((n.asname or n.name).split('.')[0])
+        elif isinstance(n, pyast.ExceptHandler) and n.name:
+            out.add(n.name)
+        elif isinstance(n, pyast.Global):
+            glob.update(n.names)
+    return out - glob, glob
+
+
+def _writes(tree):
+    """(root name, line, what) of every store through a subscript / attribute, augmented assignment, del and call of a mutating
+    method in `tree`"""
+    out = []
+    for n in pyast.walk(tree):
+        tg = []
+        if isinstance(n, pyast.Assign):
+            tg = list(n.targets)
+        elif isinstance(n, (pyast.AugAssign, pyast.AnnAssign)):
+            tg = [n.target]
+        elif isinstance(n, pyast.Delete):
+            tg = list(n.targets)
+        elif isinstance(n, (pyast.For, pyast.AsyncFor)):
+            tg = [n.target]
+        for t in tg:
+            for e in (t.elts if isinstance(t, (pyast.Tuple, pyast.List)) else [t]):
+                if isinstance(e, (pyast.Subscript, pyast.Attribute)):
+                    out.append((_root_name(e), e.lineno, 'store through %s' % pyast.unparse(e)))
+                elif isinstance(e, pyast.Name) and isinstance(n, pyast.AugAssign):
+                    out.append((e.id, e.lineno, 'augmented assignment to %s' % e.id))
+        if isinstance(n, pyast.Call) and isinstance(n.func, pyast.Attribute) and n.func.attr in MUTATORS:
+            out.append((_root_name(n.func.value), n.lineno, 'call of the mutating method %s' % pyast.unparse(n.func)))
+    return out
+
+
+def stateless_codec(ctx):
+    """Decoding / encoding is a function of the 32 bits (of the call) alone: the codec functions and every module-level function
+    they reach keep no state between two invocations.  Decided on the real AST of types.py on every run:
+      * no `global` declaration, no store / augmented assignment / del / mutating-method call whose root is a name that is not
+        local to the invocation (module-level objects, and `self`: tcall is one process-wide instance);
+      * no memoising decorator on any of them, no mutable parameter default (created once per process);
+      * every module-level VALUE they read (small_allele_pair) is bound exactly once at module level and is not written through
+        anywhere in the module.
+    Returns the names of the module-level values read (the native witness search binds exactly these)."""
+    import builtins
+
+    tree = pyast.parse(core.read_repo(TYPES))
+    top_funcs = {n.name: n for n in tree.body if isinstance(n, (pyast.FunctionDef, pyast.AsyncFunctionDef))}
+    top_classes = {n.name: n for n in tree.body if isinstance(n, pyast.ClassDef)}
+    top_imports = set()
+    star = False
+    for n in tree.body:
+        if isinstance(n, (pyast.Import, pyast.ImportFrom)):
+            for a in n.names:
+                if a.name == '*':
+                    star = True
+                top_imports.add((a.asname or a.name).split('.')[0])
+    top_values = {}
+    for n in tree.body:
+        tg = n.targets if isinstance(n, pyast.Assign) else ([n.target] if isinstance(n, (pyast.AnnAssign, pyast.AugAssign)) else [])
+        for t in tg:
+            for e in (t.elts if isinstance(t, (pyast.Tuple, pyast.List)) else [t]):
+                if isinstance(e, pyast.Name):
+                    top_values.setdefault(e.id, []).append(n.lineno)
+    tc = top_classes.get('_tcall')
+    if tc is None:
+        raise pyvc.Undecided('class _tcall not found in %s' % TYPES)
+    work, seen = [], {}
+    for q in CODEC_ROOTS:
+        m = [n for n in tc.body if isinstance(n, pyast.FunctionDef) and n.name == q.split('.')[1]]
+        if len(m) != 1:
+            raise pyvc.Undecided('%s not found exactly once' % q)
+        work.append((q, m[0]))
+    problems, value_reads, unresolved = [], {}, []
+    while work:
+        q, fn = work.pop()
+        if q in seen:
+            continue
+        seen[q] = fn
+        ctx.under_contract(TYPES, q + ' (no process-wide state)')
+        local, glob = _bound_names(fn)
+        for g in sorted(glob):
+            problems.append('%s declares `global %s`' % (q, g))
+        is_method = '.' in q
+        for d in fn.decorator_list:
+            txt = pyast.unparse(d)
+            if re.search(r'cache|memo|lru', txt, re.I):
+                problems.append('%s is wrapped by the memoising decorator @%s' % (q, txt))
+            else:
+                raise pyvc.Undecided('%s carries the decorator @%s, whose effect on the codec is not modelled' % (q, txt))
+        for d in list(fn.args.defaults) + [d for d in fn.args.kw_defaults if d is not None]:
+            # a default value is created once, when the function is defined: a mutable one is state shared by all invocations
+            if not all(isinstance(x, (pyast.Constant, pyast.Tuple, pyast.UnaryOp, pyast.USub, pyast.UAdd, pyast.Load, pyast.Name, pyast.Attribute)) for x in pyast.walk(d)):
+                problems.append('%s has the parameter default %s, an object shared by all invocations' % (q, pyast.unparse(d)))
+        for root, line, what in _writes(fn):
+            if root is None:
+                problems.append('%s:%d %s (root is not a name)' % (q, line, what))
+            elif root not in local or (is_method and root == 'self'):
+                problems.append('%s line %d: %s - `%s` outlives the invocation' % (q, line, what, root))
+        for n in pyast.walk(fn):
+            if isinstance(n, pyast.Name) and isinstance(n.ctx, pyast.Load) and n.id not in local:
+                nm = n.id
+                if nm in top_funcs:
+                    work.append((nm, top_funcs[nm]))
+                elif nm in top_values:
+                    value_reads.setdefault(nm, set()).add(q)
+                elif nm in top_classes or nm in top_imports or hasattr(builtins, nm):
+                    pass
+                else:
+                    unresolved.append('%s reads `%s`' % (q, nm))
+    all_writes = _writes(tree)
+    for nm, users in sorted(value_reads.items()):
+        if len(top_values[nm]) != 1:
+            problems.append('module-level `%s` (read by %s) is bound %d times (lines %s)' % (nm, ', '.join(sorted(users)), len(top_values[nm]), top_values[nm]))
+        for root, line, what in all_writes:
+            if root == nm:
+                problems.append('module-level `%s` (read by %s) is written at line %d: %s' % (nm, ', '.join(sorted(users)), line, what))
+        for n in pyast.walk(tree):
+            if isinstance(n, pyast.Global) and nm in n.names:
+                problems.append('module-level `%s` (read by %s) is rebound through `global` at line %d' % (nm, ', '.join(sorted(users)), n.lineno))
+    if unresolved and star:
+        raise pyvc.Undecided('names of unknown origin (star import) in the codec: %s' % unresolved[:4])
+    if unresolved:
+        raise pyvc.Undecided('free names of the codec that resolve to nothing in %s: %s' % (TYPES, unresolved[:4]))
+    ctx.add(core.decided('C34/stateless/codec-reads-and-writes-no-process-wide-mutable-state (decoding is a function of the 32 bits alone)', not problems, '; '.join(problems[:6]) or 'functions scanned: %s; module-level values read: %s' % (', '.join(sorted(seen)), ', '.join(sorted(value_reads)) or 'none'), kind='scan'))
+    ctx.add(core.decided('C34/stateless/scan-reaches-both-codec-methods-and-the-pair-helpers', all(q in seen for q in CODEC_ROOTS + ('allele_pair', 'allele_pair_sqrt')), 'scanned: %s' % ', '.join(sorted(seen)), kind='vacuity'))
+    return sorted(value_reads)
+
+
 def call_init():
     """hl.Call.__init__: an unphased diploid call stores its alleles in ascending order"""
     return Contract(
@@ -432,9 +816,12 @@ def call_init():
 
 
 def build(ctx):
+    # decided on the AST first: these obligations stand even when a later contract no longer fits a changed source
+    stateless_codec(ctx)
     objs = scvc.load_objects([os.path.join(core.REPO, p) for p in SCALA])
     encode_decode(ctx, objs)
     pairs(ctx, objs, ctx.tier if hasattr(ctx, 'tier') else 'quick')
+    staged_twin(ctx, objs, ctx.tier if hasattr(ctx, 'tier') else 'quick')
     pyvc.Engine(ctx, call_init()).run()
     found = {}
 
@@ -449,4 +836,7 @@ def build(ctx):
     ctx.witness_search = search
     ctx.assume('Scala subset semantics as implemented by vc/scvc.py (32-bit two\'s complement Int, truncating division, 5-bit shift counts); Python ints as 64-bit vectors with no-overflow obligations')
     ctx.assume('allele indices in range: k(k+1)/2 + j < 2^29 with k <= 32767 (haploid: allele < 2^29); outside it the engine\'s 32-bit arithmetic wraps and nothing is claimed')
+    ctx.assume('the packed hl.Call was built from a list of alleles (the documented parameter type): a phased / haploid call built from a tuple already differs, under Call.__eq__, from the list-based call the decoder returns')
+    ctx.assume('staged Scala (SCanonicalCall.scala): the meaning given by vc/scstaged.py to the asm4s builder calls (cb.memoize / newLocal / assign / if_ / append, Code.invokeScalaObjectN / invokeStatic1 Math.sqrt / _fatal, toD / toI, no numeric promotion); the class-file generation itself is not modelled')
+    ctx.undecided('Call.__hash__ (dict / set lookups of decoded calls) and the other staged methods of SCanonicalCallValue (unphase, containsAllele, lgtToGT) are not under contract')
     ctx.assume('contract of allele_pair_sqrt / allelePairSqrt used by the decoders (pair of the index) rests on the bounded stand-in plus monotonicity of IEEE-754 sqrt, division, subtraction and float->int truncation')
